@@ -41,3 +41,16 @@ Print Assumptions C07_two_phase.
 Theorem C07_no_output : forall span_types fn ln defs, build span_types false fn (PFootnote ln defs) = None.
 Proof. exact definition_builds_nothing. Qed.
 Print Assumptions C07_no_output.
+
+(* Which text is a link reference definition: the three scanners Footnote.match_reference calls - match_link_label
+   (the `[label]`, at most three spaces before it, escapes, no nested bracket), match_link_dest (angle form; plain form
+   with balanced parentheses, ended by `break` at white space or by exhaustion) and match_link_title (three quoting styles) -
+   are translated from block_token.py on every run, loop by loop, and the model's scanners are equal to them on every
+   string and offset (harness/gen/gen_core.py, Gen/GenCore.v, Proofs/CoreRegen.v). *)
+From Mistletoe Require Import Model.Block Gen.GenCore Proofs.CoreRegen.
+Theorem C07_definition_scanners_are_the_source : forall s offset,
+  g_fn_match_link_label s offset = fn_match_label s offset /\
+  g_fn_match_link_dest s offset = fn_match_dest s offset /\
+  g_fn_match_link_title s offset = fn_match_title s offset.
+Proof. intros. split; [apply fn_match_label_regen|]. split; [apply fn_match_dest_regen|apply fn_match_title_regen]. Qed.
+Print Assumptions C07_definition_scanners_are_the_source.
